@@ -947,7 +947,17 @@ def run(tier, seed, replay=None):
                 "(1-5 groups, directives interleaved, 12% of a third of them drawn from finding territory) with random "
                 "layouts; out-of-dialect mutants; untyped numerics (correspondence only).  distinct_nontrivial = distinct "
                 "texts in which at least one line break falls inside the statement part",
-        "exhaustive": not replay,
+        "exhaustive": False,
+        "exhaustive_subspaces": "complete enumeration of the 3^(#gaps) layouts (blank | line break | trailing comment + "
+                                "line break at every token boundary) of every one-group document shape (<= 7 tokens) for "
+                                "each filling used, and of the 2^(#gaps) break placements of the two- and three-group "
+                                "shapes (see 'families'); the product with ALL token-form fillings is complete only for "
+                                "the shape S P O . (and for all one-group shapes in the thorough tier)",
+        "trusted_base": core.TRUSTED_BASE_COMMON + [
+            "rdflib's Turtle parser as the 'standard parser' of the out-of-dialect stream and as validator of the "
+            "generator (sample)",
+            "CPython float() on untyped numeric tokens is modelled only for [+-]digits and [+-]digits.digits "
+            "(<= 15 digits); other numeric tokens give the explicit model outcome 'unmodelled'"],
         "families": fam_count,
         "outcome_distribution": dist,
         "in_C07_dom": in_dom,
